@@ -112,7 +112,7 @@ struct Client {
   sim::Task* task = nullptr;
   bool done = false;
   bool token = false;
-  uint64_t last_rx_seq = 0;  // seq at which the last frame was received
+  uint64_t last_rx_seq = 0;  // hand-over seq of the last frame received (frames captured after it are still on their way)
 };
 
 struct Universe {
@@ -503,7 +503,7 @@ struct ClientRunner {
         auto it = u.hand_by_ts.find(ts_key(rv.ts));
         u.ctx.log("client %d: frame #%d lines %d", c.idx, it == u.hand_by_ts.end() ? -1 : u.hand[(size_t)it->second].idx, nl);
         c.iv.back().frames.push_back(rv);
-        c.last_rx_seq = rv.seq;
+        if (it != u.hand_by_ts.end()) c.last_rx_seq = u.hand[(size_t)it->second].seq;
         c.reads_ok++;
       } else if (r == 0) {
         u.ctx.count("client_read_timeout_or_async");
@@ -598,6 +598,14 @@ struct ClientRunner {
       else if (op.kind == "stall") do_stall(20 + (int)absmod(op.arg(0), 3000));
       else if (op.kind == "update") do_update((int)op.arg(0), (int)absmod(op.arg(1) + 1, 4) - 1, op.arg(2) != 0);
       else if (op.kind == "close") do_close();
+      else if (op.kind == "sync") {  // act at a common instant: several clients' messages reach the daemon in one select round
+        int64_t g = (int64_t)(10 + absmod(op.arg(0), 200)) * 1000000, now = u.k.now_ns();
+        uint64_t a = u.next_seq();
+        u.sched.sleep_ns((now / g + 1) * g - now);
+        uint64_t b = u.next_seq();
+        if (c.connected && !c.iv.empty()) { HarnessScope hs; c.iv.back().inattentive.push_back({a, b}); }  // not reading while it waits
+        u.ctx.count("client_sync_points");
+      }
       else if (op.kind == "token") do_token_req(1 + (int)absmod(op.arg(0), 3), (int)absmod(op.arg(1), 0x50), (int)absmod(op.arg(2), 4), (int)op.arg(3, 1));
       else if (op.kind == "notify") do_notify((int)absmod(op.arg(0), 32));
     }
@@ -640,7 +648,12 @@ struct ProxyWorld : World {
     p.knobs["pparam"] = (p.knobs["policy"] == 1) ? 30 + (int64_t)r.below(65) : (int64_t)r.below(4);
     p.knobs["fault_seed"] = (int64_t)(r.next() >> 1);
     p.knobs["content_seed"] = (int64_t)(r.next() >> 1);
-    static const int caps[] = {64, 100, 256, 700, 2048, 4096, 16384, 65536};
+    // Socket buffer capacity per direction.  Not below 2048 bytes: Linux never gives an AF_UNIX stream socket less (SO_SNDBUF
+    // minimum), and the protocol lets both sides write at the same time (a client sending its request while the daemon sends an
+    // indication), which needs room for one small message per direction; with 64-byte buffers both sides waited for writability
+    // until the client's RPC timeout - an artefact of the simulated kernel, not a property violation (DESIGN.md 0.4).  Frames are
+    // 2 KiB and more, so partial sends still happen; short_io_pct cuts calls arbitrarily on top.
+    static const int caps[] = {2048, 2304, 3000, 4096, 8192, 16384, 65536, 212992};
     p.knobs["sock_cap"] = caps[r.below(8)];
     bool faults = !r.chance(1, 3);
     p.knobs["short_io_pct"] = faults && r.chance(1, 2) ? (int64_t)r.range(5, 40) : 0;
@@ -1069,7 +1082,7 @@ struct C19 : ProxyWorld {
     bool thorough = tier == "thorough";
     gen_common(p, r, thorough);
     int mode = (int)r.below(3);  // 0: adversaries + witnesses, 1: token workload, 2: both
-    int nc = (int)r.range(1, 3) + (mode != 0 ? 1 : 0);
+    int nc = (int)r.range(1, 3) + (mode != 0 ? (int)r.range(1, 2) : 0);
     p.knobs["nclients"] = nc;
     p.knobs["maxclients"] = (int64_t)r.range(1, 10);
     int nadv = mode == 1 ? 0 : (int)r.range(1, thorough ? 4 : 3);
@@ -1084,11 +1097,12 @@ struct C19 : ProxyWorld {
       for (int n = 0; n < len; n++) {
         Op o; o.task = i;
         unsigned x = (unsigned)r.below(100);
+        if (x >= 35 && x < 92 && r.chance(1, 2)) { Op sy; sy.task = i; sy.kind = "sync"; sy.a = {(int64_t)(r.below(3) * 40)}; p.ops.push_back(sy); }
         if (x < 35) { o.kind = "read"; o.a = {(int64_t)r.below(30)}; }
         else if (x < 65) { o.kind = "token"; o.a = {r.chance(4, 5) ? 0 : (int64_t)r.below(3), (int64_t)(r.below(5) * 0x10), (int64_t)r.below(4), r.chance(9, 10)}; }
-        else if (x < 92) { static const int fl[] = {VBI_PROXY_CHN_TOKEN, VBI_PROXY_CHN_RELEASE, VBI_PROXY_CHN_TOKEN, VBI_PROXY_CHN_TOKEN | VBI_PROXY_CHN_FLUSH, VBI_PROXY_CHN_FLUSH, VBI_PROXY_CHN_FAIL, VBI_PROXY_CHN_NORM, VBI_PROXY_CHN_RELEASE | VBI_PROXY_CHN_TOKEN};
+        else if (x < 90) { static const int fl[] = {VBI_PROXY_CHN_TOKEN, VBI_PROXY_CHN_RELEASE, VBI_PROXY_CHN_TOKEN, VBI_PROXY_CHN_TOKEN | VBI_PROXY_CHN_FLUSH, VBI_PROXY_CHN_FLUSH, VBI_PROXY_CHN_FAIL, VBI_PROXY_CHN_NORM, VBI_PROXY_CHN_RELEASE | VBI_PROXY_CHN_TOKEN};
           o.kind = "notify"; o.a = {fl[r.below(8)]}; }
-        else if (x < 96) { o.kind = "stall"; o.a = {(int64_t)r.below(2500)}; }
+        else if (x < 97) { o.kind = "stall"; o.a = {(int64_t)r.below(2500)}; }
         else { o.kind = "close"; p.ops.push_back(o); Op c2 = c; p.ops.push_back(c2); continue; }
         p.ops.push_back(o);
       }
